@@ -64,8 +64,12 @@ const (
 // File describes one template file.
 type File struct {
 	Path   string `json:"path"`
-	Layout string `json:"layout,omitempty"` // front-matter `layout:` value; "" = key absent
-	K      string `json:"k,omitempty"`      // front-matter `k:` value; "" = key absent
+	Layout string `json:"layout,omitempty"` // front-matter `layout:` value; "" = names no layout
+	// Empty (only when Layout == ""): how "no layout" is written: "" = key absent, "bare" =
+	// `layout:`, "quoted" = `layout: ""`, "tilde" = `layout: ~`. A key without a value names no
+	// layout, so the reference walker does not look at this field.
+	Empty string `json:"empty,omitempty"`
+	K     string `json:"k,omitempty"` // front-matter `k:` value; "" = key absent
 }
 
 // Long describes a synthetic chain <dir>/c001.vuego -> c002 -> ... -> cN (-> Tail).
@@ -236,6 +240,16 @@ func sourceFM(f File, isPage, withLayout bool) string {
 	var fm []string
 	if f.Layout != "" && withLayout {
 		fm = append(fm, "layout: "+f.Layout)
+	}
+	if f.Layout == "" && withLayout {
+		switch f.Empty {
+		case "bare":
+			fm = append(fm, "layout:")
+		case "quoted":
+			fm = append(fm, `layout: ""`)
+		case "tilde":
+			fm = append(fm, "layout: ~")
+		}
 	}
 	if f.K != "" {
 		fm = append(fm, "k: "+f.K)
@@ -510,7 +524,10 @@ func check(c Case) error {
 	if err != nil {
 		return err
 	}
-	if !pl.defaultDue || pl.pageReused || pl.out == oUnspec || c.LayoutVia != "" {
+	if c.LayoutVia != "" && c.Page.Layout != "" {
+		return viaConsistency(c, res)
+	}
+	if !pl.defaultDue || pl.pageReused || pl.out == oUnspec {
 		return nil
 	}
 	shadow := path.Join(path.Dir(c.Page.Path), "base.vuego")
@@ -535,6 +552,51 @@ func check(c Case) error {
 		if d := hx.Diff(a, b, hx.Options{}); d != "" {
 			return fmt.Errorf("the document differs between default-applied and explicitly named layouts/base.vuego (%s): %s", pl.describe(), d)
 		}
+	}
+	return nil
+}
+
+// readings reports which of the two consistent readings of a layout name supplied through
+// Fill / Assign the result fits: named (as the front-matter key would) and/or ignored.
+func readings(c Case, res result) (named, ignored bool) {
+	named = judge(c, walk(c), res) == nil
+	d := c
+	d.Page.Layout, d.LayoutVia = "", ""
+	ignored = judge(d, walk(d), res) == nil
+	return
+}
+
+// viaConsistency: whichever reading an implementation takes for a Fill/Assign-supplied layout
+// name, it cannot depend on whether layouts/base.vuego exists (the default rule is about pages
+// that name NO layout). The sibling case - same files with layouts/base.vuego removed, or added
+// as a plain ending layout - must not flip from "only named fits" to "only ignored fits".
+func viaConsistency(c Case, res result) error {
+	n1, i1 := readings(c, res)
+	if n1 == i1 {
+		return nil // both fit (the readings coincide here); neither cannot happen after checkOne
+	}
+	sib := c
+	sib.Files = nil
+	had := false
+	for _, f := range c.Files {
+		if f.Path == basePath {
+			had = true
+			continue
+		}
+		sib.Files = append(sib.Files, f)
+	}
+	if !had {
+		sib.Files = append(sib.Files, File{Path: basePath})
+	}
+	_, res2, err := checkOne(sib)
+	if err != nil {
+		return fmt.Errorf("sibling case with layouts/base.vuego %s: %w", map[bool]string{true: "removed", false: "added"}[had], err)
+	}
+	n2, i2 := readings(sib, res2)
+	if n2 != i2 && n1 != n2 {
+		which := map[bool]string{true: "honoured as the page's layout", false: "ignored"}
+		return fmt.Errorf("layout name %q supplied through %s is %s with layouts/base.vuego %s but %s with it %s",
+			c.Page.Layout, c.LayoutVia, which[n1], map[bool]string{true: "present", false: "absent"}[had], which[n2], map[bool]string{true: "absent", false: "present"}[had])
 	}
 	return nil
 }
@@ -789,6 +851,16 @@ func classify(c Case) (bool, []string) {
 	}
 	if pl.nonStr {
 		cls = append(cls, "link:name-is-non-string-yaml-scalar")
+	}
+	if c.Page.Layout == "" && c.Page.Empty != "" && c.LayoutVia == "" {
+		if baseExists {
+			cls = append(cls, "page-layout-key-empty("+c.Page.Empty+")+base-present")
+		} else {
+			cls = append(cls, "page-layout-key-empty("+c.Page.Empty+")+base-absent")
+		}
+	}
+	if n := len(pl.chain); pl.out == oOK && n > 1 && pl.chain[n-1].Layout == "" && pl.chain[n-1].Empty != "" && !pl.pageReused {
+		cls = append(cls, "last-layout-has-empty-layout-key")
 	}
 	if c.LayoutVia != "" && c.Page.Layout != "" {
 		cls = append(cls, "page-layout-supplied-via="+c.LayoutVia)
@@ -1120,6 +1192,14 @@ func genCase(t *rapid.T) Case {
 	if rapid.Bool().Draw(t, "via") {
 		c.Via = "renderfile"
 	}
+	if c.Page.Layout == "" {
+		c.Page.Empty = rapid.SampledFrom(emptySpellings).Draw(t, "page.empty")
+	}
+	for i := range c.Files {
+		if c.Files[i].Layout == "" && rapid.IntRange(0, 2).Draw(t, "empty?:"+c.Files[i].Path) == 0 {
+			c.Files[i].Empty = rapid.SampledFrom(emptySpellings[1:]).Draw(t, "empty:"+c.Files[i].Path)
+		}
+	}
 	if c.Page.Layout != "" {
 		c.LayoutVia = rapid.SampledFrom([]string{"", "", "", "", "fill", "assign"}).Draw(t, "layout.via")
 	}
@@ -1189,6 +1269,56 @@ func (s *stage) yield(c Case) bool {
 		return false
 	}
 	return true
+}
+
+var emptySpellings = []string{"", "bare", "quoted", "tilde"}
+
+// rotateEmpty writes "no layout" of the page and of the layout files in one of its spellings
+// (key absent, `layout:`, `layout: ""`, `layout: ~`) as a function of the running index.
+func rotateEmpty(c *Case, i int) {
+	if c.Page.Layout == "" {
+		c.Page.Empty = emptySpellings[i%4]
+	}
+	for j := range c.Files {
+		if c.Files[j].Layout == "" {
+			c.Files[j].Empty = emptySpellings[(i/4+j)%4]
+		}
+	}
+}
+
+// emptyKeys: the page's layout key absent / `layout:` / `layout: ""` / `layout: ~` x
+// layouts/base.vuego absent / present ending / present with an empty key itself / present and
+// continuing into layouts/a x pages/base.vuego decoy x both entry points; storage rotates.
+func emptyKeys(s *stage) {
+	for _, pe := range emptySpellings {
+		for base := 0; base < 4; base++ {
+			for _, be := range emptySpellings[1:] {
+				for _, decoy := range []bool{false, true} {
+					for _, via := range []string{"", "renderfile"} {
+						if base != 2 && be != "bare" {
+							continue
+						}
+						c := Case{Page: File{Path: "pages/p.vuego", Empty: pe, K: kValue("pages/p.vuego")}, Via: via, FillK: kFill}
+						switch base {
+						case 1:
+							c.Files = append(c.Files, File{Path: basePath})
+						case 2:
+							c.Files = append(c.Files, File{Path: basePath, Empty: be})
+						case 3:
+							c.Files = append(c.Files, File{Path: basePath, Layout: "a"}, File{Path: "layouts/a.vuego", Empty: pe})
+						}
+						if decoy {
+							c.Files = append(c.Files, File{Path: "pages/base.vuego", Layout: "zz"})
+						}
+						rotateFS(&c, s.n/2)
+						if !s.yield(c) {
+							return
+						}
+					}
+				}
+			}
+		}
+	}
 }
 
 // rotateFS varies how the file set is stored as a function of the running index: a single
@@ -1266,6 +1396,7 @@ func overlaySplits(s *stage) {
 				d.Via = "renderfile"
 			}
 			applyKMask(&d, (i*7+i/3)%(4<<len(d.Files)))
+			rotateEmpty(&d, i/2)
 			if !s.yield(d) {
 				return false
 			}
@@ -1356,6 +1487,7 @@ func shapes(s *stage) {
 					if i%2 == 1 {
 						c.Via = "renderfile"
 					}
+					rotateEmpty(&c, i/3)
 					if !viaDefault && L > 0 {
 						switch i % 6 {
 						case 1:
@@ -1399,6 +1531,7 @@ func allGraphs(s *stage, slots []string) {
 			c.Via = "renderfile"
 		}
 		rotateFS(&c, i)
+		rotateEmpty(&c, i/5)
 		return s.yield(c)
 	})
 }
@@ -1449,6 +1582,7 @@ func TestProp(t *testing.T) {
 		{"long", "synthetic chains of 6..150 layouts", longChains},
 		{"zone", "default-applied vs explicitly named base over chains of 93..106 templates", limitZone},
 		{"overlay", "all layout graphs over 3 files x 3 page options x every upper/lower split of the layout files", overlaySplits},
+		{"empty", "page layout key absent/empty in three spellings x base absent/present/continuing", emptyKeys},
 		{"shape", "chain shapes: lengths 0..5 x placements x endings x default/named", shapes},
 		{"enum", fmt.Sprintf("all layout graphs over %d layout files x 6 page options", len(slots)), func(s *stage) { allGraphs(s, slots) }},
 		{"enumk", "all layout graphs over 3 files x 3 page options x all k-source subsets x 2 entry points", allGraphsK},
